@@ -272,16 +272,19 @@ InitSt(S) == [slots |-> [i \in 1..Len(S.fields) |->
                            ELSE [seen |-> FALSE, has |-> FALSE, v |-> ""]],
               errs |-> <<>>, flat |-> <<>>, panic |-> FALSE]
 
+ElemTy(f) == IF f.multiple THEN [k |-> "val", id |-> 0] ELSE f.ty
+
 \* user-supplied converters are symbolic wrappers: with -> w(..), map -> m(..), and_then -> t(..)
 \* and_then rejects the value "s:bad" (so that a post-transform can itself be a mistake)
-ApplyWith(f, r) == IF f.with = "none" \/ ~r.ok THEN r ELSE [r EXCEPT !.v = "w(" \o r.v \o ")"]
+ApplyWith(f, r) ==
+  IF f.with = "none" \/ ~r.ok THEN r
+  ELSE IF ElemTy(f).k = "opt" THEN [r EXCEPT !.v = <<"w(" \o r.v[1] \o ")">>]     \* w_opt: Option<Val> -> Some(w(..))
+  ELSE [r EXCEPT !.v = "w(" \o r.v \o ")"]
 ApplyTransform(f, r) ==
   IF ~r.ok \/ f.transform = "none" THEN r
   ELSE IF f.transform = "map" THEN [r EXCEPT !.v = "m(" \o r.v \o ")"]
   ELSE IF r.v \in {"s:bad", "w(s:bad)"} THEN Fail(Leaf("custom", "t-rejects"))
   ELSE [r EXCEPT !.v = "t(" \o r.v \o ")"]
-
-ElemTy(f) == IF f.multiple THEN [k |-> "val", id |-> 0] ELSE f.ty
 
 \* MatchArm's extractor (field.rs:181-185)
 Extract(f, it, p, loc) ==
